@@ -7,6 +7,8 @@ import (
 	"os"
 	"os/exec"
 	"path/filepath"
+	"sort"
+	"sync"
 	"sync/atomic"
 	"syscall"
 	"testing"
@@ -58,6 +60,9 @@ func TestCrashChild(t *testing.T) {
 			rec.mu.Unlock()
 		}
 		n := int(count.Add(1))
+		if cs.KillAt == 0 && !cs.Recover {
+			ack.write("S %d %s", n, name) // dry run: remember which site every hook index is
+		}
 		if cs.KillAt > 0 && n == cs.KillAt {
 			ack.write("K %d %s", n, name)
 			die()
@@ -67,6 +72,9 @@ func TestCrashChild(t *testing.T) {
 		y.VerifSetFileFn(func(op, path string) {
 			rec.event(op, path)
 			n := int(count.Add(1))
+			if cs.KillAt == 0 {
+				ack.write("S %d file:%s", n, op)
+			}
 			if cs.KillAt > 0 && n == cs.KillAt {
 				ack.write("K %d file:%s", n, op)
 				die()
@@ -87,8 +95,43 @@ func TestCrashChild(t *testing.T) {
 	}
 	p := cs.Prog
 	seq, idx := 0, 0
+	var pendingCallbacks sync.WaitGroup
 	for _, op := range p.Ops {
+		if op.Kind != "atxn" && op.Kind != "atxnwait" {
+			pendingCallbacks.Wait() // every other step runs with no write in flight
+		}
 		switch op.Kind {
+		case "atxn", "atxnwait":
+			idx++
+			myIdx := idx
+			ack.write("I %d", myIdx)
+			txn := db.NewTransaction(true)
+			for _, w := range op.Writes {
+				seq++
+				k := append([]byte{}, p.Keys[w.Key%len(p.Keys)]...)
+				var err error
+				if w.Del {
+					err = txn.Delete(k)
+				} else {
+					err = txn.Set(k, val(seq, w.VSize))
+				}
+				if err != nil {
+					ack.write("E set: %v", err)
+					return
+				}
+			}
+			pendingCallbacks.Add(1)
+			txn.CommitWith(func(err error) {
+				if err != nil {
+					ack.write("E async commit: %v", err)
+				} else {
+					ack.write("A %d", myIdx)
+				}
+				pendingCallbacks.Done()
+			})
+			if op.Kind == "atxnwait" {
+				pendingCallbacks.Wait()
+			}
 		case "txn":
 			idx++
 			ack.write("I %d", idx)
@@ -157,6 +200,7 @@ func TestCrashChild(t *testing.T) {
 			}
 		}
 	}
+	pendingCallbacks.Wait()
 	if err := db.Close(); err != nil {
 		ack.write("E close: %v", err)
 	}
@@ -351,14 +395,7 @@ func crashCampaign(p Prog, all bool, recoverToo bool) (crashStats, error) {
 			pts = append(pts, i)
 		}
 	} else {
-		seen := map[int]bool{}
-		for _, x := range p.Points {
-			n := x%total + 1
-			if !seen[n] {
-				seen[n] = true
-				pts = append(pts, n)
-			}
-		}
+		pts = stratified(dry.AckPath, p.Points, total)
 	}
 	for _, n := range pts {
 		dir := filepath.Join(base, fmt.Sprintf("k%d", n))
@@ -404,6 +441,40 @@ func crashCampaign(p Prog, all bool, recoverToo bool) (crashStats, error) {
 	return cs, nil
 }
 
+// stratified picks crash points so that rare sites (compaction, flush, GC, MANIFEST rewrite) are
+// hit as often as the very frequent ones (WAL stores): choose a site, then one of its hits.
+func stratified(dryAck string, picks []int, total int) []int {
+	bySite := map[string][]int{}
+	raw, _ := os.ReadFile(dryAck)
+	for _, line := range bytes.Split(raw, []byte("\n")) {
+		if len(line) > 2 && line[0] == 'S' {
+			var n int
+			var name string
+			fmt.Sscanf(string(line[2:]), "%d %s", &n, &name)
+			bySite[name] = append(bySite[name], n)
+		}
+	}
+	var sites []string
+	for s := range bySite {
+		sites = append(sites, s)
+	}
+	sort.Strings(sites)
+	seen := map[int]bool{}
+	var out []int
+	for _, x := range picks {
+		n := x%total + 1
+		if len(sites) > 0 {
+			hits := bySite[sites[x%len(sites)]]
+			n = hits[(x/len(sites))%len(hits)]
+		}
+		if !seen[n] {
+			seen[n] = true
+			out = append(out, n)
+		}
+	}
+	return out
+}
+
 func killSite(ackPath string) string {
 	raw, _ := os.ReadFile(ackPath)
 	for _, line := range bytes.Split(raw, []byte("\n")) {
@@ -424,7 +495,7 @@ func tailBytes(b []byte) string {
 	return string(b)
 }
 
-var wCrash = map[string]int{"txn": 10, "burst": 3, "flush": 4, "compact": 4, "gc": 1, "churn": 1, "reopen": 1}
+var wCrash = map[string]int{"txn": 10, "burst": 3, "asyncburst": 3, "flush": 4, "compact": 4, "gc": 1, "churn": 1, "reopen": 1}
 
 func TestC08_CrashRecovery(t *testing.T) {
 	all := core.Thorough()
